@@ -852,7 +852,13 @@ pub mod udp {
     }
 
     struct ClientSource(mpsc::Receiver<Datagram>);
-    struct ClientSink(mpsc::UnboundedSender<Datagram>);
+    /// `drop_every` = k > 0: every k-th datagram is refused (`SendStatus::Dropped`), like a client
+    /// connection that has no room for it
+    struct ClientSink {
+        tx: mpsc::UnboundedSender<Datagram>,
+        drop_every: usize,
+        seen: usize,
+    }
 
     #[async_trait]
     impl datagram_pipe::Source for ClientSource {
@@ -879,7 +885,11 @@ pub mod udp {
     impl datagram_pipe::Sink for ClientSink {
         type Input = forwarder::UdpDatagram;
         async fn write(&mut self, d: forwarder::UdpDatagram) -> io::Result<datagram_pipe::SendStatus> {
-            let _ = self.0.send(Datagram {
+            self.seen += 1;
+            if self.drop_every > 0 && self.seen % self.drop_every == 0 {
+                return Ok(datagram_pipe::SendStatus::Dropped);
+            }
+            let _ = self.tx.send(Datagram {
                 source: d.meta.source,
                 destination: d.meta.destination,
                 payload: d.payload.to_vec(),
@@ -896,12 +906,28 @@ pub mod udp {
         timeout: Duration,
         metrics: impl Fn(bool, usize) + Send + Sync,
     ) -> io::Result<()> {
+        run_multiplexer_dropping(ctx, from_client, to_client, timeout, metrics, 0).await
+    }
+
+    /// Same, with a client side that refuses every `drop_every`-th datagram (0 = none)
+    pub async fn run_multiplexer_dropping(
+        ctx: &Ctx,
+        from_client: mpsc::Receiver<Datagram>,
+        to_client: mpsc::UnboundedSender<Datagram>,
+        timeout: Duration,
+        metrics: impl Fn(bool, usize) + Send + Sync,
+        drop_every: usize,
+    ) -> io::Result<()> {
         let (shared, source, sink) =
             udp_forwarder::make_multiplexer(ctx.0.clone(), log_utils::IdChain::empty())?;
         let mut pipe = udp_pipe::DuplexPipe::new(
             (
                 Box::new(ClientSource(from_client)),
-                Box::new(ClientSink(to_client)),
+                Box::new(ClientSink {
+                    tx: to_client,
+                    drop_every,
+                    seen: 0,
+                }),
             ),
             (shared, source, sink),
             move |dir, n| metrics(dir == crate::pipe::SimplexDirection::Incoming, n),
